@@ -418,6 +418,12 @@ class Interp:
                             return True
                         if o in ("Gt", "Ge", "Eq"):
                             return False
+                    if kind == "le_arg" and i < len(ra) and ra[i] is y:
+                        o = SWAP[op] if flip else op
+                        if o == "Le":
+                            return True
+                        if o == "Gt":
+                            return False
         rel = self.run.__dict__.get("rel_lt")
         if rel:
             # relational facts assumed on this path: a < b
@@ -638,8 +644,8 @@ class Interp:
             if is_sym(d) and "rel" in d.attrs:
                 ra = d.attrs.get("rel_args") or []
                 for kind, i in d.attrs["rel"]:
-                    if kind == "lt_arg" and i < len(ra) and is_sym(ra[i]) and ra[i].op == "sat_sub" and ra[i].args[1] is x:
-                        return True
+                    if kind in ("lt_arg", "le_arg") and i < len(ra) and is_sym(ra[i]) and ra[i].op == "sat_sub" and ra[i].args[1] is x:
+                        return True     # b + d <= b + (a - b) = a when a >= b, and d = 0 when a < b (a.saturating_sub(b) = 0)
         return False
 
     def cast_int(self, v, from_ty, to_ty):
